@@ -232,6 +232,7 @@ package file
 //@   requires containerWf(c) && (h != nil ==> handlerWf(h))
 //@   requires h != nil && has(c.m, strings.ToUpper(h.path)) ==> c.m[strings.ToUpper(h.path)] == h &&
 //@       (!h.closed && h.openType == ForUpdate ==> h.tempFile != nil && fs[h.path] != 0 && fs[tempPathOf(h.path)] != 0)
+//@   ensures [new-contents-published] result == nil && h != nil && old(has(c.m, strings.ToUpper(h.path))) && old(h.openType) == ForUpdate && !old(h.closed) ==> fs[h.path] == old(fs[tempPathOf(h.path)])
 //@   ensures [committed-handler-forgotten] result == nil && h != nil ==> !has(c.m, strings.ToUpper(h.path))
 //@   ensures [failure-keeps-handler-registered] result != nil && h != nil ==> has(c.m, strings.ToUpper(h.path)) == old(has(c.m, strings.ToUpper(h.path)))
 //@   ensures [failure-keeps-a-complete-table] h != nil && old(has(c.m, strings.ToUpper(h.path))) && old(h.openType) == ForUpdate && !old(h.closed) ==> fs[h.path] == old(fs[h.path]) || fs[h.path] == old(fs[tempPathOf(h.path)])
